@@ -1,9 +1,10 @@
 /-
-Model of the `/Dests` name array built at the end of `weasyprint/pdf/__init__.py::generate_pdf`:
-`for anchor in sorted(pdf_names): name_array.append(pydyf.String(anchor[0])); name_array.append(anchor[1])`,
-with `pydyf.String.data` for the keys (ASCII text → literal string; anything else → `<FEFF…>` UTF-16BE).
-A Python `str` is the list of its code points; Python compares `str` (and the byte strings a PDF reader compares)
-lexicographically.  No Mathlib.
+Model of the `/Dests` name array built at the end of `weasyprint/pdf/__init__.py::generate_pdf` (as repaired):
+`for anchor in sorted(pdf_names, key=key_bytes): name_array.append(pydyf.String(anchor[0])); name_array.append(anchor[1])`
+where `key_bytes(anchor)` is `name.encode('ascii')` for an ASCII name and `BOM_UTF16_BE + name.encode('utf-16-be')`
+otherwise — the bytes `pydyf.String.data` denotes for the key (ASCII text → literal string; anything else →
+`<FEFF…>` UTF-16BE).  A Python `str` is the list of its code points; Python compares `str` and `bytes` (and a PDF reader
+the keys of a name tree) lexicographically.  `sorted(..., key=…)` is stable.  No Mathlib.
 -/
 import WpModel.Model.Wire
 
@@ -45,8 +46,37 @@ tree): the ASCII text itself, or BOM + UTF-16BE. -/
 def keyBytes (s : PyStr) : List Nat :=
   if isAscii s then s else 0xFE :: 0xFF :: s.flatMap utf16be
 
+/-- `sorted(xs, key=key)`: stable insertion by `lexLt` on the keys. -/
+def insertBy (key : PyStr → List Nat) : PyStr → List PyStr → List PyStr
+  | x, [] => [x]
+  | x, y :: ys => if lexLt (key x) (key y) then x :: y :: ys else y :: insertBy key x ys
+
+def pySortedBy (key : PyStr → List Nat) : List PyStr → List PyStr
+  | [] => []
+  | x :: xs => insertBy key x (pySortedBy key xs)
+
+/-- The anchor names in the order of the `/Names` array: `sorted(pdf_names, key=key_bytes)`. -/
+def destOrder (names : List PyStr) : List PyStr := pySortedBy keyBytes names
+
 /-- Keys of the `/Names` array, in array order. -/
-def destKeys (names : List PyStr) : List (List Nat) := (pySorted names).map keyBytes
+def destKeys (names : List PyStr) : List (List Nat) := (destOrder names).map keyBytes
+
+/-- The order before the repair (`sorted(pdf_names)`: Python `str` order of the names), kept for the regression
+example of the fixed finding `dests-names-unsorted`. -/
+def destKeysStrOrder (names : List PyStr) : List (List Nat) := (pySorted names).map keyBytes
+
+/-! ### The `/EmbeddedFiles` name array (as repaired by "sort the /EmbeddedFiles name tree by key")
+
+`for pdf_attachment in sorted(pdf_attachments, key=lambda attachment: attachment['F'].data)` where
+`attachment['F'] = pydyf.String(filename.encode(errors='ignore'))`: the key of the tree is the file name (UTF-8 bytes),
+the *sort* key is its serialised form `pydyf.String.data`. -/
+
+/-- `pydyf.String(b).data` for a bytes value: `(` + the bytes with `\`, `(`, `)` escaped by a backslash + `)`. -/
+def litData (s : List Nat) : List Nat :=
+  40 :: s.flatMap (fun b => if b = 92 ∨ b = 40 ∨ b = 41 then [92, b] else [b]) ++ [41]
+
+/-- Keys of the `/Names` array of `/EmbeddedFiles` (the file names as bytes), in array order. -/
+def embeddedKeys (names : List (List Nat)) : List (List Nat) := pySortedBy litData names
 
 /-- Adjacent elements in order. -/
 def sortedBy (le : List Nat → List Nat → Bool) : List (List Nat) → Bool
